@@ -118,6 +118,8 @@ structure Obs where
   srv : List Name := []              -- `Server.Sessions()`
   log : List LogEnt := []            -- handler invocations during this operation
   stale : List Name := []            -- sessions that have left `h.sessions` whose idle timer is armed
+  closed : List Name := []           -- (`legacy` / `noids` cases only) sessions for which the event store's
+                                     -- `SessionClosed` was called during this operation
 deriving DecidableEq, Repr
 
 /-! ### reading operations -/
